@@ -22,6 +22,8 @@ type Case struct {
 	Rule int    `json:"rule"`
 	// Limit: roman.MaxInputLength for the case: 0 = package default (128), -1 = disabled, n > 0 = n.
 	Limit int `json:"max_input_length,omitempty"`
+	// Lead: this many M are put in front of Text (numerals worth more than 2^32 take megabytes).
+	Lead int `json:"leading_m,omitempty"`
 }
 
 func setLimit(l int) func() {
@@ -63,6 +65,14 @@ func judge(c Case, w *vkit.W) {
 		}
 	}()
 	text := string(c.Text)
+	if c.Lead > 0 {
+		text = strings.Repeat("M", c.Lead) + text
+	}
+	heavy := len(text) > 1<<20 // megabyte numerals: only the three main entry points (each call takes seconds)
+	shown := text
+	if heavy {
+		shown = fmt.Sprintf("<%d x M>%s", c.Lead, c.Text)
+	}
 	rule := roman.Rule(c.Rule)
 	want, ok := ref.RomanValue(text)
 	if text == "" && c.Rule&int(roman.RuleDisableEmptyAsZero) != 0 {
@@ -75,35 +85,35 @@ func judge(c Case, w *vkit.W) {
 	parse := func(path string, got roman.Number, err error) {
 		if ok {
 			if err != nil {
-				w.Fail(c, "numeral-rejected", fmt.Sprintf("%s(%q, rule=%d): oracle value %d, library error %v", path, text, c.Rule, want, err))
+				w.Fail(c, "numeral-rejected", fmt.Sprintf("%s(%q, rule=%d): oracle value %d, library error %v", path, shown, c.Rule, want, err))
 			} else if uint64(got) != want {
-				w.Fail(c, "wrong-value", fmt.Sprintf("%s(%q): oracle value %d, library %d", path, text, want, uint64(got)))
+				w.Fail(c, "wrong-value", fmt.Sprintf("%s(%q): oracle value %d, library %d", path, shown, want, uint64(got)))
 			}
 			return
 		}
 		if err == nil {
-			w.Fail(c, "non-numeral-accepted", fmt.Sprintf("%s(%q, rule=%d): not a numeral, library returned %d", path, text, c.Rule, uint64(got)))
+			w.Fail(c, "non-numeral-accepted", fmt.Sprintf("%s(%q, rule=%d): not a numeral, library returned %d", path, shown, c.Rule, uint64(got)))
 			return
 		}
 		if got != 0 {
-			w.Fail(c, "nonzero-result-with-error", fmt.Sprintf("%s(%q): error %v with result %d", path, text, err, uint64(got)))
+			w.Fail(c, "nonzero-result-with-error", fmt.Sprintf("%s(%q): error %v with result %d", path, shown, err, uint64(got)))
 		}
 		if !typed(err) {
-			w.Fail(c, "error-not-typed", fmt.Sprintf("%s(%q): %T %v is not a *roman.NumberFormatError", path, text, err, err))
+			w.Fail(c, "error-not-typed", fmt.Sprintf("%s(%q): %T %v is not a *roman.NumberFormatError", path, shown, err, err))
 		}
 		if errors.Is(err, roman.ErrInputTooLong) != tooLong {
-			w.Fail(c, "input-too-long-mismatch", fmt.Sprintf("%s(%q): len %d limit %d ErrInputTooLong=%v", path, text, len(text), roman.MaxInputLength, !tooLong))
+			w.Fail(c, "input-too-long-mismatch", fmt.Sprintf("%s(%q): len %d limit %d ErrInputTooLong=%v", path, shown, len(text), roman.MaxInputLength, !tooLong))
 		}
 	}
 	valid := func(path string, err error) {
 		if ok && err != nil {
-			w.Fail(c, "valid-rejects-numeral", fmt.Sprintf("%s(%q, rule=%d): %v", path, text, c.Rule, err))
+			w.Fail(c, "valid-rejects-numeral", fmt.Sprintf("%s(%q, rule=%d): %v", path, shown, c.Rule, err))
 		}
 		if !ok && err == nil {
-			w.Fail(c, "valid-accepts-non-numeral", fmt.Sprintf("%s(%q, rule=%d) = nil", path, text, c.Rule))
+			w.Fail(c, "valid-accepts-non-numeral", fmt.Sprintf("%s(%q, rule=%d) = nil", path, shown, c.Rule))
 		}
 		if !ok && err != nil && !typed(err) {
-			w.Fail(c, "error-not-typed", fmt.Sprintf("%s(%q): %T %v is not a *roman.NumberFormatError", path, text, err, err))
+			w.Fail(c, "error-not-typed", fmt.Sprintf("%s(%q): %T %v is not a *roman.NumberFormatError", path, shown, err, err))
 		}
 	}
 	var n roman.Number
@@ -120,6 +130,9 @@ func judge(c Case, w *vkit.W) {
 		parse("DefaultParser[string]", n, err)
 	}
 	valid("Valid[string]", roman.Valid(text, rule))
+	if heavy {
+		return
+	}
 	valid("Valid[[]byte]", roman.Valid(w.Scratch(text), rule))
 	if ok || len(text) < 3 {
 		// derived input types (constraint.ParserInput is ~string | ~[]byte)
@@ -135,7 +148,7 @@ func judge(c Case, w *vkit.W) {
 		err := v.UnmarshalText(w.Scratch(text))
 		if err != nil {
 			if v != sentinel {
-				w.Fail(c, "receiver-changed-on-error", fmt.Sprintf("UnmarshalText(%q): error %v, receiver %d", text, err, uint64(v)))
+				w.Fail(c, "receiver-changed-on-error", fmt.Sprintf("UnmarshalText(%q): error %v, receiver %d", shown, err, uint64(v)))
 			}
 			v = 0
 		}
@@ -159,6 +172,9 @@ func applyMask(s []byte, mask uint64, out []byte) []byte {
 func TestCheck(t *testing.T) {
 	r := vkit.Start("C10")
 	defer r.Finish(t)
+	if r.ReplayCold() {
+		return
+	}
 	if r.Replay != "" {
 		var c Case
 		if err := r.LoadReplay(&c); err != nil {
@@ -352,6 +368,46 @@ func TestCheck(t *testing.T) {
 		})
 	})
 	r.Sampled()
+
+	// Phase G: "any number of M": numerals worth more than 2^32 (the parser's arithmetic must be 64 bits wide throughout).
+	r.Phase("G: numerals with 4,294,967-4,294,968 leading M (values just above 2^32), limit disabled, DefaultParser[string], DefaultParser[[]byte], Valid", func() {
+		defer setLimit(-1)()
+		giants := []Case{{Text: "CDXLIV", Lead: 4294968, Limit: -1}, {Text: "cmxcix", Lead: 4294967, Limit: -1}}
+		if r.Thorough() {
+			giants = append(giants, Case{Text: "", Lead: 8589935, Limit: -1}, Case{Text: "IIX", Lead: 4294968, Limit: -1}, Case{Text: "ccxcvi", Lead: 4294967, Limit: -1})
+		}
+		r.Parallel(int64(len(giants)), 1, func(w *vkit.W, lo, hi int64) {
+			for i := lo; i < hi; i++ {
+				judge(giants[i], w)
+				w.EvalRandom(vkit.Hash64("G", string(giants[i].Text), strconv.Itoa(giants[i].Lead)), true)
+			}
+		})
+	})
+
+	// Phase W: texts that programs conventionally treat specially ("null", "nil", "", "0", "N", ...) through every entry point.
+	r.Phase(fmt.Sprintf("W: %d conventional special texts (null, nil, none, 0, nulla, ...) x rules x limits through every entry point", len(ref.ConventionalTexts)), func() {
+		for _, lim := range []int{0, -1, 4} {
+			restore := setLimit(lim)
+			r.Serial(func(w *vkit.W) {
+				for _, text := range ref.ConventionalTexts {
+					for _, rule := range rules {
+						judge(Case{Text: vkit.B(text), Rule: rule, Limit: lim}, w)
+						w.EvalRandom(vkit.Hash64("W", text, strconv.Itoa(rule), strconv.Itoa(lim)), true)
+					}
+				}
+			})
+			restore()
+		}
+	})
+
+	r.Phase(fmt.Sprintf("X: %d cold-start scenarios (which roman call comes first in a fresh process)", len(coldScenarios)), func() {
+		r.Serial(func(w *vkit.W) {
+			for _, sc := range coldScenarios {
+				r.RunCold(w, sc, false)
+				w.EvalRandom(vkit.Hash64("cold", sc), true)
+			}
+		})
+	})
 
 	// Phase C: rapid - numerals of larger numbers with random flags and case, optionally edited (shrinks to a minimal text).
 	r.Phase("C: rapid numerals with edits", func() {
